@@ -27,11 +27,15 @@ def main():
     meta = json.load(open(os.path.join(d, "meta.json")))
     props = sys.argv[2:] or [meta["property"]]
     patch = os.path.join(d, "patch.diff")
+    # a seed whose original patch no longer applies to the repaired tree may carry the same change ported to HEAD
+    ported = os.path.join(d, "patch-head.diff")
     wt = tempfile.mkdtemp(prefix="seedcheck-", dir="/tmp/wt")
     os.rmdir(wt)
     try:
         rev = "HEAD"
         sh("git", "-C", "/repo", "worktree", "add", "--detach", wt, rev)
+        if sh("git", "-C", wt, "apply", "--check", patch).returncode != 0 and os.path.exists(ported) and sh("git", "-C", wt, "apply", "--check", ported).returncode == 0:
+            patch = ported
         if sh("git", "-C", wt, "apply", "--check", patch).returncode != 0:
             sh("git", "-C", "/repo", "worktree", "remove", "--force", wt)
             rev = BASE
